@@ -8,7 +8,9 @@
    of the regular language of r's expression (decided by a derivative matcher proved equal to the declarative semantics,
    C09_shape_is_regular), the literal first/last characters, nested ordered spans on char boundaries.  It is a consequence of
    C01/C14 for grammar.pest and of C04; the harness evaluates the extracted `shape_ok` on EVERY real parse.
-   Flags: `shipped` = the code as it is, `repaired` = with fixes/C09-1..4; `extras` = feature grammar-extras.
+   Flags: `shipped ex lr tg` = the code without, `repaired ex lr tg` = with fixes/C09-1..4; ex = feature grammar-extras;
+   lr, tg = whether the tree has the two C06 repairs that touch functions modelled here (left_recursion::check_expr,
+   filter_map_top_down into NodeTag): every theorem holds for both values, the runner follows the tree.
    FPanic = the Rust call panics; FFuel = model artefact.  Rendering is C10's theorem (PV.Pos.Top).           *)
 From Coq Require Import List Arith NArith ZArith Bool Lia.
 Import ListNotations.
@@ -36,43 +38,43 @@ Definition C09_statement_for (fl : flags) : Prop :=
      forall l, out = FErrors l -> forall e, In e l -> located text (snd e) /\ renders text (snd e))
   /\
   (exists c k, forall rules builtins ex fuel errs s,
-     validate_ast rules fuel builtins ex = VOk errs s -> s <= c * (rules_size rules) ^ k).
-Definition C09_statement : Prop := forall ex, C09_statement_for (shipped ex).
+     validate_ast rules fuel (fix_lr fl) (fix_tag fl) builtins ex = VOk errs s -> s <= c * (rules_size rules) ^ k).
+Definition C09_statement : Prop := forall ex lr tg, C09_statement_for (shipped ex lr tg).
 
 (* ------------------------------------------------------------------ what is proved for the repaired code *)
 (* C09_no_panic + C09_locations + rendering: every clause of the first half except `<> FFuel`, for EVERY fuel
    and without any bound on the repetition counts (the repaired unroller needs none) *)
 Definition C09_total_located_statement : Prop :=
-  forall ex builtins fuel text forest, shape_ok text forest = true ->
-    let out := frontend (repaired ex) builtins fuel text forest in
+  forall ex lr tg builtins fuel text forest, shape_ok text forest = true ->
+    let out := frontend (repaired ex lr tg) builtins fuel text forest in
     out <> FPanic /\ docs_consume forest = true /\
     forall l, out = FErrors l -> forall e, In e l -> located text (snd e) /\ renders text (snd e).
 Theorem C09_total_located : C09_total_located_statement.
 Proof.
-  intros ex builtins fuel text forest SH out. split; [apply frontend_no_panic; exact SH|]. split.
+  intros ex lr tg builtins fuel text forest SH out. split; [apply frontend_no_panic; exact SH|]. split.
   - apply (docs_consume_ok text). apply shape_ok_forest. exact SH.
-  - intros l E e He. pose proof (frontend_located ex builtins fuel text forest l SH E e He) as L.
+  - intros l E e He. pose proof (frontend_located ex lr tg builtins fuel text forest l SH E e He) as L.
     split; [exact L|]. intros msg. destruct (snd e) as [p|a b].
     + apply (top_render_pos_no_panic text p L msg).
     + destruct L as (L1 & L2 & L3). apply (top_render_span_no_panic text a L2 b L3 L1 msg).
 Qed.
 Definition C09_no_panic_statement : Prop :=
-  forall ex builtins fuel text forest, shape_ok text forest = true -> frontend (repaired ex) builtins fuel text forest <> FPanic.
+  forall ex lr tg builtins fuel text forest, shape_ok text forest = true -> frontend (repaired ex lr tg) builtins fuel text forest <> FPanic.
 Theorem C09_no_panic : C09_no_panic_statement.
 Proof. exact frontend_no_panic. Qed.
 Definition C09_locations_statement : Prop :=
-  forall ex builtins fuel text forest l, shape_ok text forest = true -> frontend (repaired ex) builtins fuel text forest = FErrors l ->
+  forall ex lr tg builtins fuel text forest l, shape_ok text forest = true -> frontend (repaired ex lr tg) builtins fuel text forest = FErrors l ->
   forall e, In e l -> located text (snd e).
 Theorem C09_locations : C09_locations_statement.
-Proof. intros ex builtins fuel text forest l SH E e He. exact (frontend_located ex builtins fuel text forest l SH E e He). Qed.
+Proof. intros ex lr tg builtins fuel text forest l SH E e He. exact (frontend_located ex lr tg builtins fuel text forest l SH E e He). Qed.
 
 (* with the unroller as shipped (only the reader repaired, fixes C09-1..3) the same holds when every repetition count
    of the rules read is at most 2^32 - 3 *)
 Definition C09_no_panic_bounded_counts_statement : Prop :=
-  forall ex builtins fuel text forest, shape_ok text forest = true ->
-    (forall rules, consume_rules_with_spans (repaired_reader_only ex) text fuel forest = ODone rules ->
+  forall ex lr tg builtins fuel text forest, shape_ok text forest = true ->
+    (forall rules, consume_rules_with_spans (repaired_reader_only ex lr tg) text fuel forest = ODone rules ->
                    Forall (fun r => counts_le 4294967293 (pbody r)) rules) ->
-    frontend (repaired_reader_only ex) builtins fuel text forest <> FPanic.
+    frontend (repaired_reader_only ex lr tg) builtins fuel text forest <> FPanic.
 Theorem C09_no_panic_bounded_counts : C09_no_panic_bounded_counts_statement.
 Proof. exact frontend_no_panic_bounded_counts. Qed.
 
@@ -83,12 +85,12 @@ Proof. exact frontend_no_panic_bounded_counts. Qed.
 Definition C09_terminates_partial_statement : Prop :=
   forall fl builtins fuel text forest,
     (fdepth forest <= fuel -> consume_rules_with_spans fl text fuel forest <> OFuel) /\
-    (forall rules, length rules < fuel -> validate_ast rules fuel builtins (extras fl) <> VFuel).
+    (forall rules, length rules < fuel -> validate_ast rules fuel (fix_lr fl) (fix_tag fl) builtins (extras fl) <> VFuel).
 Theorem C09_terminates_partial : C09_terminates_partial_statement.
 Proof.
   intros fl builtins fuel text forest. split.
   - intros D E. pose proof (consume_rules_nofuel fl text fuel forest D) as N. rewrite E in N. exact N.
-  - intros rules L E. pose proof (validate_ast_nf rules fuel ltac:(rewrite map_length; exact L) builtins (extras fl)) as N. rewrite E in N. exact N.
+  - intros rules L E. pose proof (validate_ast_nf rules fuel (fix_lr fl) (fix_tag fl) ltac:(rewrite map_length; exact L) builtins (extras fl)) as N. rewrite E in N. exact N.
 Qed.
 
 (* the shape invariant IS the regular-language statement: the matcher used by shape_ok decides `matches` *)
@@ -99,15 +101,16 @@ Proof. exact re_matchb_iff. Qed.
 (* ------------------------------------------------------------------ bounded time: refuted *)
 (* a1 = { a2 ~ a2 }  a2 = { a3 ~ a3 } ... a(n+2) = { "" }: at least 2^n validator steps *)
 Definition validator_steps_exponential_statement : Prop :=
-  forall n fuel builtins ex errs s, n + 4 <= fuel -> validate_ast (fam n) fuel builtins ex = VOk errs s -> 2 ^ n <= s.
+  forall n fuel lrf tgf builtins ex errs s, n + 4 <= fuel -> validate_ast (fam n) fuel lrf tgf builtins ex = VOk errs s -> 2 ^ n <= s.
 Theorem validator_steps_exponential : validator_steps_exponential_statement.
 Proof. exact Steps.validator_steps_exponential. Qed.
 (* ... while the family has quadratic size, so no polynomial bounds the steps, whatever the configuration *)
 Definition C09_steps_refuted_statement : Prop :=
-  ~ exists c k, forall rules builtins ex fuel errs s, validate_ast rules fuel builtins ex = VOk errs s -> s <= c * (rules_size rules) ^ k.
+  forall lrf tgf, ~ exists c k, forall rules builtins ex fuel errs s,
+    validate_ast rules fuel lrf tgf builtins ex = VOk errs s -> s <= c * (rules_size rules) ^ k.
 Theorem C09_steps_refuted : C09_steps_refuted_statement.
 Proof.
-  intros (c & k & H). destruct (validator_not_polynomial c k) as (rules & V). destruct (V [] false) as (errs & s & E & L).
+  intros lrf tgf (c & k & H). destruct (validator_not_polynomial c k) as (rules & V). destruct (V lrf tgf [] false) as (errs & s & E & L).
   specialize (H _ _ _ _ _ _ E). lia.
 Qed.
 
@@ -119,50 +122,51 @@ Definition panics (fl : flags) (text : str) (forest : list tok) : Prop :=
    ( | "a" ) : the Pratt parser meets an infix operator first                                [fixes/C09-3]
    "x"{4294967294,} : `1..min + 2` overflows                                                 [fixes/C09-4] *)
 Definition C09_refuted_witnesses_statement : Prop :=
-  panics (shipped false) w_escape_str_text w_escape_str_forest /\
-  panics (shipped false) w_escape_chr_text w_escape_chr_forest /\
-  panics (shipped false) w_escape_ins_text w_escape_ins_forest /\
-  panics (shipped false) w_peek_text w_peek_forest /\
-  panics (shipped false) w_paren_choice_text w_paren_choice_forest /\
-  panics (shipped false) w_unroll_text w_unroll_forest /\
-  panics (repaired_reader_only false) w_unroll_text w_unroll_forest.
+  panics (shipped false true true) w_escape_str_text w_escape_str_forest /\
+  panics (shipped false true true) w_escape_chr_text w_escape_chr_forest /\
+  panics (shipped false true true) w_escape_ins_text w_escape_ins_forest /\
+  panics (shipped false true true) w_peek_text w_peek_forest /\
+  panics (shipped false true true) w_paren_choice_text w_paren_choice_forest /\
+  panics (shipped false true true) w_unroll_text w_unroll_forest /\
+  panics (repaired_reader_only false true true) w_unroll_text w_unroll_forest /\
+  panics (shipped false false false) w_escape_str_text w_escape_str_forest.
 Theorem C09_refuted_witnesses : C09_refuted_witnesses_statement.
 Proof. unfold C09_refuted_witnesses_statement, panics. repeat split; vm_compute; reflexivity. Qed.
 
 Definition C09_refuted_statement : Prop := ~ C09_statement.
 Theorem C09_refuted : C09_refuted_statement.
 Proof.
-  intros H. destruct (H false) as [T _].
+  intros H. destruct (H false true true) as [T _].
   destruct (T [] w_escape_str_text w_escape_str_forest ltac:(vm_compute; reflexivity)) as (NP & _).
   apply NP. vm_compute. reflexivity.
 Qed.
 (* the repaired code falls short of the full statement by the step bound only *)
-Definition C09_repaired_refuted_statement : Prop := forall ex, ~ C09_statement_for (repaired ex).
+Definition C09_repaired_refuted_statement : Prop := forall ex lr tg, ~ C09_statement_for (repaired ex lr tg).
 Theorem C09_repaired_refuted : C09_repaired_refuted_statement.
-Proof. intros ex [_ H]. exact (C09_steps_refuted H). Qed.
+Proof. intros ex lr tg [_ H]. exact (C09_steps_refuted lr tg H). Qed.
 
 (* ------------------------------------------------------------------ non-vacuity *)
 (* the repaired code on the witnesses: located errors, resp. rules *)
-Example repaired_escape : frontend (repaired false) [] (default_fuel w_escape_str_text w_escape_str_forest) w_escape_str_text w_escape_str_forest
+Example repaired_escape : frontend (repaired false true true) [] (default_fuel w_escape_str_text w_escape_str_forest) w_escape_str_text w_escape_str_forest
                           = FErrors [(KBadEscape, LSpan 6 16)].
 Proof. vm_compute. reflexivity. Qed.
-Example repaired_peek : frontend (repaired false) [] (default_fuel w_peek_text w_peek_forest) w_peek_text w_peek_forest
+Example repaired_peek : frontend (repaired false true true) [] (default_fuel w_peek_text w_peek_forest) w_peek_text w_peek_forest
                         = FErrors [(KOverflowI32, LSpan 11 22)].
 Proof. vm_compute. reflexivity. Qed.
-Example repaired_paren_choice : frontend (repaired false) [] (default_fuel w_paren_choice_text w_paren_choice_forest) w_paren_choice_text w_paren_choice_forest
+Example repaired_paren_choice : frontend (repaired false true true) [] (default_fuel w_paren_choice_text w_paren_choice_forest) w_paren_choice_text w_paren_choice_forest
                                 = FRules 1.
 Proof. vm_compute. reflexivity. Qed.
 (* a well-formed grammar: the hypothesis shape_ok is satisfiable and the front end returns rules in both configurations *)
 Example ok_shape : shape_ok w_ok_text w_ok_forest = true.
 Proof. vm_compute. reflexivity. Qed.
-Example ok_rules : frontend (shipped false) [] (default_fuel w_ok_text w_ok_forest) w_ok_text w_ok_forest = FRules 2 /\
-                   frontend (repaired false) [] (default_fuel w_ok_text w_ok_forest) w_ok_text w_ok_forest = FRules 2.
+Example ok_rules : frontend (shipped false true true) [] (default_fuel w_ok_text w_ok_forest) w_ok_text w_ok_forest = FRules 2 /\
+                   frontend (repaired false true true) [] (default_fuel w_ok_text w_ok_forest) w_ok_text w_ok_forest = FRules 2.
 Proof. split; vm_compute; reflexivity. Qed.
 (* the shape invariant is not trivially true: dropping a closing brace token breaks it *)
 Example bad_shape : shape_ok w_ok_text (removelast w_ok_forest) = false.
 Proof. vm_compute. reflexivity. Qed.
 (* the validator on the family, n = 6: 8 rules, 2^6 <= steps *)
-Example family_steps : exists s, validate_steps (fam 6) 11 [] false = Some s /\ 64 <= s.
+Example family_steps : exists s, validate_steps (fam 6) 11 true true [] false = Some s /\ 64 <= s.
 Proof. eexists. split; [vm_compute; reflexivity|]. lia. Qed.
 
 Print Assumptions C09_total_located.
